@@ -94,6 +94,14 @@ def run(e: Engine, rep: Report):
              're-queued with a new due time; a second round attempts them '
              'before that time and flush() never returns')
     q13(e, rep)
+    rep.rule('Q14', 'no position of the timetable is used across a yield '
+             'point: where _check_ready / flush remove an entry by position '
+             '(`del self.queued[0]`, `self.queued.pop(0)`), no dispatch into '
+             'a pool (which can block on a bounded pool while other '
+             'greenlets insert entries) lies between reading the entry at '
+             'that position and removing it - the position then belongs to '
+             'another entry, and a stored, due message is forgotten')
+    q14(e, rep)
     rep.floor('Q2', 3, 'timetable writers')
 
 
@@ -1456,3 +1464,61 @@ def q13(e: Engine, rep: Report):
     if n < 1:
         rep.error('anchor vanished: flush() takes the entries out of '
                   'self.queued')
+
+
+# ---------------------------------------------------------------------- Q14
+def q14(e: Engine, rep: Report):
+    n = 0
+    for meth in ('_check_ready', 'flush'):
+        ctx = e.method_ctx(QUEUE, meth)
+        g = e.build(ctx, raises=lambda b, nn, r: set(),
+                    inline=e.inline_same_self(deny=['_pool_spawn',
+                                                    '_add_queued']),
+                    max_depth=3)
+        where = ctx.func.qname
+        rep.functions.add(where)
+        spawns = [x for x in g.calls() if e.call_name(x) in (
+            '_pool_spawn', '_pool_run', 'spawn')]
+        reads = [x for x in g.nodes if x.kind == 'stmt' and
+                 isinstance(x.ast, ast.Assign) and
+                 isinstance(x.ast.value, ast.Subscript) and
+                 ast.unparse(x.ast.value.value) == 'self.queued' and
+                 not isinstance(x.ast.value.slice, ast.Slice)]
+        # spawned since the entry was read (the read kills the event)
+        before = dataflow.may_events_before(
+            g, lambda x: ['spawn'] if x in spawns else [],
+            kill=lambda x: ['spawn'] if x in reads else [])
+        for x in g.nodes:
+            pos = None
+            if x.kind == 'stmt' and isinstance(x.ast, ast.Delete):
+                for t in x.ast.targets:
+                    if isinstance(t, ast.Subscript) and \
+                            ast.unparse(t.value) == 'self.queued' and \
+                            not isinstance(t.slice, ast.Slice):
+                        pos = t
+            elif x.kind == 'call' and isinstance(x.ast.func, ast.Attribute) \
+                    and x.ast.func.attr == 'pop' and \
+                    ast.unparse(x.ast.func.value) == 'self.queued':
+                pos = x.ast
+            if pos is None or not reads:
+                continue
+            n += 1
+            rep.evaluations += 1
+            rep.check('spawn' not in (before.get(x.id) or ()), 'Q14', where,
+                      '`%s` removes the entry that was read'
+                      % ' '.join(ast.unparse(pos).split())[:40],
+                      '%s reads an entry of the timetable by position, '
+                      'dispatches into a pool and then removes `%s`: the '
+                      'dispatch can block on a bounded pool, and an entry '
+                      'inserted in front meanwhile takes that position - it '
+                      'is removed without ever having been dispatched, and '
+                      'the message stays stored with nobody scheduled to '
+                      'attempt it' % (meth, ' '.join(
+                          ast.unparse(pos).split())[:40]), loc=x.loc(),
+                      reason='no pool dispatch between the read and the '
+                      'removal')
+    rep.evaluations += 1
+    if n == 0:
+        rep.ok('Q14', QUEUE, 'no removal by position in _check_ready / flush',
+               reason='entries are taken out by slice / re-binding',
+               nontrivial=False)
